@@ -13,12 +13,13 @@ func init() { registry["C11"] = propC11 }
 func propC11() *Property {
 	return &Property{
 		ID: "C11",
-		Explanation: "Structural clauses of the feed property only. Decided: (R1) the feed simply ends — no pointer that may be nil is ever converted into a pub.Container or pub.Tangible interface anywhere in the module (a typed nil passes every `!= nil` test of the UI and crashes on the next Harvest); (R2) splicer.NewSplicer's type switch covers every dynamic type pub.FetchUserInput can return, so its panic is unreachable; (R3) the parallel replenish/NewSplicer fan-out is race-free (decided by C08.R5); (R4) Splicer.Harvest never writes through its receiver — it works on a clone — which is necessary for the same feed position to give the same answer twice. NOT decided: that the output is the newest-first merge, exactly-once delivery, tie-breaking and idempotence as values (they quantify over timestamps and slices; no static argument in reach decides them).",
+		Explanation: "Structural clauses of the feed property only. Decided: (R1) the feed simply ends — no pointer that may be nil is ever converted into a pub.Container or pub.Tangible interface anywhere in the module (a typed nil passes every `!= nil` test of the UI and crashes on the next Harvest); (R2) splicer.NewSplicer's type switch covers every dynamic type pub.FetchUserInput can return, so its panic is unreachable; (R3) the parallel replenish/NewSplicer fan-out is race-free (decided by C08.R5); (R4) Splicer.Harvest never writes through its receiver — it works on a clone — which is necessary for the same feed position to give the same answer twice; (R5) because clone() copies the per-source buffers shallowly, a feed value and all its clones / continuations share the arrays behind `elements`: those arrays are only re-sliced or re-allocated by append, never written in place (no indexed store, no copy into them other than clone's own self-copy). NOT decided: that the output is the newest-first merge, exactly-once delivery, tie-breaking and idempotence as values (they quantify over timestamps and slices; no static argument in reach decides them).",
 		Assumptions: []string{"VTA call graph / MakeInterface sites over-approximate the dynamic types of interface values"},
 		Rules: []Rule{
 			{ID: "C11.R1", Title: "no typed-nil pointer is converted to Container / Tangible", Floor: 30, Run: c11R1},
 			{ID: "C11.R2", Title: "NewSplicer's type switch covers every type FetchUserInput returns", Floor: 3, Run: c11R2},
 			{ID: "C11.R4", Title: "Harvest works on a clone: the receiver is never written", Floor: 1, Run: c11R4},
+			{ID: "C11.R5", Title: "buffered items are shared with clones: never written in place", Floor: 1, Run: c11R5},
 		},
 	}
 }
@@ -102,6 +103,22 @@ func c11R2(c *Ctx) {
 		}
 	}
 	walk(ns)
+	// helpers of package splicer that NewSplicer (or its goroutines) call
+	seenFn := map[*ssa.Function]bool{ns: true}
+	work := append([]*ssa.Function{ns}, Closures(ns)...)
+	for len(work) > 0 {
+		fn := work[0]
+		work = work[1:]
+		eachInstr(fn, func(_ *ssa.BasicBlock, _ int, in ssa.Instruction) {
+			if ci, ok := in.(ssa.CallInstruction); ok {
+				if sc := ci.Common().StaticCallee(); sc != nil && P.PkgOf(sc) == "servitor/splicer" && !seenFn[sc] {
+					seenFn[sc] = true
+					walk(sc)
+					work = append(work, sc)
+				}
+			}
+		})
+	}
 	for _, n := range names {
 		t := dyn[n]
 		covered := false
@@ -197,4 +214,71 @@ func ifaceUsesNonNil(nn *nonNil, v ssa.Value, ptr ssa.Value, seen map[ssa.Value]
 		}
 	}
 	return true
+}
+
+// c11R5: no in-place write into the shared element buffers.
+func c11R5(c *Ctx) {
+	P := c.P
+	isElements := func(v ssa.Value) (string, bool) {
+		u, ok := v.(*ssa.UnOp)
+		if !ok {
+			return "", false
+		}
+		fa, ok := u.X.(*ssa.FieldAddr)
+		if !ok || fieldOf(fa).Name() != "elements" {
+			return "", false
+		}
+		return path(fa.X), true
+	}
+	n := 0
+	for _, fn := range P.FuncsIn("servitor/splicer") {
+		fname := FuncName(fn)
+		eachInstr(fn, func(_ *ssa.BasicBlock, _ int, in ssa.Instruction) {
+			switch x := in.(type) {
+			case *ssa.Store:
+				if ia, ok := x.Addr.(*ssa.IndexAddr); ok {
+					if _, isEl := isElements(ia.X); isEl {
+						n++
+						c.bad(fname+"/in-place-store", P.InstrPos(in), fname, "an element of a source's buffer is overwritten in place; the buffer's array is shared with every clone and continuation of the feed, whose items change under them")
+					}
+				}
+			case *ssa.Call:
+				b, ok := x.Call.Value.(*ssa.Builtin)
+				if !ok || b.Name() != "copy" {
+					return
+				}
+				dst, src := x.Call.Args[0], x.Call.Args[1]
+				// peel sub-slicing of the destination
+				for {
+					sl, ok := dst.(*ssa.Slice)
+					if !ok {
+						break
+					}
+					dst = sl.X
+				}
+				dp, isEl := isElements(dst)
+				if !isEl {
+					return
+				}
+				n++
+				// clone()'s self-copy: same index of the freshly copied header array and of the receiver
+				sp, srcEl := isElements(src)
+				self := srcEl && fn.Name() == "clone" && indexSuffix(dp) == indexSuffix(sp) && indexSuffix(dp) != ""
+				c.check(self, fname+"/in-place-copy", P.InstrPos(in), fname,
+					"clone copies each buffer onto itself (the headers were copied with the structs): no visible change",
+					"items are copied into a source's buffer in place; the buffer's array is shared with every clone and continuation of the feed, so earlier positions of the feed change their answer")
+			}
+		})
+	}
+	if n == 0 {
+		c.ok("servitor/splicer/no-in-place-writes", "splicer/splicer.go", "servitor/splicer", "no indexed store or copy targets a source buffer")
+	}
+}
+
+func indexSuffix(p string) string {
+	i := strings.LastIndex(p, "[&")
+	if i < 0 {
+		return ""
+	}
+	return p[i:]
 }
